@@ -10,13 +10,14 @@ META = dict(
                 "logged write against the prescribed write order, every raw /pins state against the model and the invariants."),
     level_note=("Trusted: MapDatastore, the recording/crashing datastore wrapper (a crash = no later write is persisted, i.e. writes "
                 "reach the disk in issue order), projection of keys/values to (kind, pin number, cid number, mode, name). Not covered: "
-                "the periodic flush after 50 repaired pins in rebuildIndexes, stale cross-mode index entries, concurrent calls."),
+                "stale index entries other than the cross-mode entry of an existing record (fault Stale), concurrent calls."),
     technique="TLA+ write-level model; crash-point enumeration on the code with a recording datastore; traces validated by TLC (TracePinnerWrites)",
 )
 
 
 def run(ctx):
     import os
+    import json
     skip_m = bool(os.environ.get("VERIF_SKIP_M"))   # mutation self-tests only: phase M does not depend on the code
     q = ctx.quick
     ctx.assumptions += ["a crash persists exactly a prefix of the issued datastore writes",
@@ -24,6 +25,9 @@ def run(ctx):
     ctx.cov["rule"] = ("T: random call histories (PinRec/PinDir via Pin and PinWithMode, Unpin, Update; 3 CIDs, names '', a, b); for "
                        "every call j and every k < #writes(j) one run: calls 1..j-1 complete, call j cut after k writes, Crash, Reopen "
                        "(recovery writes logged; thorough: every cut of the recovery as well), raw state + queries, two further calls. "
+                       "Directed (GenPinnerWrites): per class (last call, records of its cids before it) of histories whose last call "
+                       "passes a state with two pin records of one cid -- every Update class, 4 re-pin classes in quick -- every cut of "
+                       "the last call, reopen without and with a planted stale cross-mode index entry (fault Stale). "
                        "non-trivial = run with a crash strictly inside a call that replaces or removes an existing pin")
     if not skip_m:
         ctx.tlc_mc("Pinner", "PinnerWrites.tla", "MCPinnerWritesQ.cfg" if q else "MCPinnerWrites.cfg", timeout=2400,
@@ -36,12 +40,55 @@ def run(ctx):
                        expect_violation="DirtyCovers")
         if r["violated"] not in ("DirtyCovers", "IndexesAgree"):
             ctx.broken("as-built recovery (Dev_C23_RebuildCleansEarly) should violate DirtyCovers, TLC says %s" % r["violated"])
+    # directed histories from the model: the last call can be stopped while ONE CID HAS TWO PIN RECORDS
+    # (Update onto a directly pinned target, re-pin with another name, direct -> recursive), or is an Update
+    # refused on a recursively pinned target.  One class = (last call, pin records of its cids before it).
+    gen = ctx.tlc_gen("Pinner", "GenPinnerWrites.tla", "GenPinnerWrites.cfg", timeout=1200, workers=4)
+    classes = {}
+    for b in gen:
+        h, last = b["h"], b["h"][-1]
+        shape = lambda c: tuple(sorted((p_["mode"], p_["name"]) for p_ in b["pre"] if p_["c"] == c))
+        sig = (last["op"], last["flag"], last["name"], shape(last["c"]), shape(last["c2"]) if last["c2"] else ())
+        key = json.dumps([{x: o[x] for x in ("op", "c", "c2", "flag", "name")} for o in h], sort_keys=True)
+        classes.setdefault(sig, set()).add(key)
+    upd = sorted(sg for sg in classes if sg[0] == "Update")
+    pins = sorted(sg for sg in classes if sg[0] != "Update")
+    if len(upd) < 12 or len(pins) < 8:
+        ctx.broken("generator GenPinnerWrites: too few two-record classes (Update %d, Pin %d)" % (len(upd), len(pins)))
+        return
+
+    def pick(sigs, per):
+        out = []
+        for sg in sigs:
+            hs = sorted(classes[sg], key=lambda k_: (len(json.loads(k_)), k_))
+            chosen = [hs[0]] + ([ctx.rng.choice(hs)] if per > 1 and len(hs) > 1 else [])   # shortest + a random one
+            for n_, k_ in enumerate(dict.fromkeys(chosen)):
+                out.append({"h": [dict(o, via=(len(out) + i_) % 2) for i_, o in enumerate(json.loads(k_))]})
+        return out
+    dir_upd = pick(upd, 1)                                       # every Update class in both tiers
+    dir_pin = pick(ctx.rng.sample(pins, 4) if q else pins, 1)    # quick: 4 of the re-pin classes
+    ctx.log("directed: %d behaviours, %d Update classes, %d re-pin classes -> %d + %d histories" %
+            (len(gen), len(upd), len(pins), len(dir_upd), len(dir_pin)))
     binp = ctx.go_build("pinning/pinner/dspinner", ["pinning/pinner/dspinner/zz_verif_C23_test.go"])
-    env = {"C23_HIST": 3 if q else 8, "C23_LEN": 6 if q else 8, "C23_SECOND": 0 if q else 1}
+    env = {"C23_HIST": 2 if q else 8, "C23_LEN": 6 if q else 8, "C23_SECOND": 0 if q else 1}
     recs, out, rc = ctx.go_run(binp, "TestVerifC23", pkg="pinning/pinner/dspinner", mode="record", env=env, timeout=1800)
     if rc != 0 or not recs:
         ctx.broken("record driver died: " + out[-1500:])
         return
+    denv = {"C23_DIRECTED": 1, "C23_STALE_EVERY": 2 if q else 1, "C23_SECOND": 0 if q else 1}
+    dirs = []
+    for nm, hs in (("upd", dir_upd), ("pin", dir_pin)):
+        d_, out, rc = ctx.go_run(binp, "TestVerifC23", pkg="pinning/pinner/dspinner", mode="record", env=denv, timeout=1800,
+                                 infile=ctx.write_ndjson("directed_%s.ndjson" % nm, hs))
+        if rc != 0 or not d_:
+            ctx.broken("record driver (directed %s) died: " % nm + out[-1500:])
+            return
+        dirs.append(d_)
+    # the re-pin classes need the open deviation (delete-first): validated together with the random histories
+    recs = recs + dirs[1]
+    nstale = sum(1 for r_ in dirs[0] + dirs[1] if r_["ev"] == "Stale")
+    if nstale < 4:
+        ctx.broken("directed runs planted only %d stale cross-mode index entries" % nstale)
     # more records than rebuildIndexes checks between two flushes (50): 100 pins + one cut pin, recovery cut at every write
     big, out, rc = ctx.go_run(binp, "TestVerifC23", pkg="pinning/pinner/dspinner", mode="record",
                               env={"C23_BIG": 1 if q else 4, "C23_BIGPINS": 100}, timeout=1800)
@@ -57,13 +104,24 @@ def run(ctx):
         cur.append(r_)
     chunks.append(cur)
     chunks.append(big)
+    cur = []
+    for r_ in dirs[0]:
+        if r_["ev"] == "Reset" and len(cur) > (6000 if q else 8000):
+            chunks.append(cur)
+            cur = []
+        cur.append(r_)
+    chunks.append(cur)
     # non-trivial runs
     run_, crash_in_op = [], 0
-    for r_ in recs + [{"ev": "Reset"}]:
+    two = 0
+    for r_ in recs + dirs[0] + [{"ev": "Reset"}]:
         if r_["ev"] == "Reset":
             evs = [e["ev"] for e in run_]
             if "Crash" in evs:
                 i = evs.index("Crash")
+                st = [e for e in run_[i:] if e["ev"] == "State"]
+                if st and len({x[1] for x in st[0]["recs"]}) < len(st[0]["recs"]):
+                    two += 1        # reopened on a datastore with two pin records for one cid
                 tail = run_[:i]
                 # writes of the cut call
                 b = max(k for k, e in enumerate(tail) if e["ev"] == "Begin") if any(e["ev"] == "Begin" for e in tail) else None
@@ -72,6 +130,10 @@ def run(ctx):
                     ctx.nontrivial([(e.get("op"), e.get("k"), e.get("c"), e.get("name")) for e in tail[b:]])
             run_ = []
         run_.append(r_)
+
+    ctx.log("runs reopened with two pin records of one cid: %d, stale entries planted: %d" % (two, nstale))
+    if two < 4:
+        ctx.broken("only %d crash runs reopened with two pin records of one cid" % two)
 
     def corrupt(rs):
         # swap the PutRecord of some addPin with the write that follows it
